@@ -111,6 +111,22 @@ static std::string variant(const std::string& text, int kind) {
   return out;
 }
 
+// byte equality, except that the distance column of LINK/SSBOND (derived from the coordinates at write time, and a
+// rounding boundary when atoms differ along one axis only) may differ by one unit of the last digit
+static bool same_text_mod_link_distance(const std::string& a, const std::string& b) {
+  if (a == b) return true;
+  if (a.size() != b.size()) return false;
+  for (size_t pos = 0; pos < a.size(); pos += 81) {
+    if (a.compare(pos, 81, b, pos, 81) == 0) continue;
+    bool conn = a.compare(pos, 4, "LINK") == 0 || a.compare(pos, 6, "SSBOND") == 0;
+    if (!conn || pos + 81 > a.size()) return false;
+    if (a.compare(pos, 73, b, pos, 73) != 0 || a.compare(pos + 78, 3, b, pos + 78, 3) != 0) return false;
+    double da = std::atof(a.substr(pos + 73, 5).c_str()), db = std::atof(b.substr(pos + 73, 5).c_str());
+    if (std::fabs(da - db) > 0.0101) return false;
+  }
+  return true;
+}
+
 static std::string diff_report(const char* what, const std::string& a, const std::string& b) {
   std::string d = ps::first_diff(a, b);
   return d.empty() ? "" : std::string(what) + ": " + d;
@@ -243,7 +259,7 @@ static std::string handle(const std::string& cmd, const std::string& args) {
       return r.empty() ? "ok" : "padding: " + r + " text=" + hx(t1);
     }
     std::string t2 = make_pdb_string(st2, wo);
-    if (t1 != t2) return "second write differs: " + ps::first_diff(t1, t2) + " text=" + hx(t1);
+    if (!same_text_mod_link_distance(t1, t2)) return "second write differs: " + ps::first_diff(t1, t2) + " text=" + hx(t1);
     // field-by-field equality, on what the chosen options put into the file
     ps::DumpOpt o;
     o.serial = wo.preserve_serial;
@@ -260,7 +276,9 @@ static std::string handle(const std::string& cmd, const std::string& args) {
     if (!r.empty()) return r + " text=" + hx(t1);
     // reading the re-written text gives the identical structure (all fields)
     Structure st3 = rd(t2, ro);
-    r = diff_report("read(write(read)) differs", ps::dump(st2), ps::dump(st3));
+    ps::DumpOpt full;
+    full.conn_extra = t1 == t2;   // in the tolerated rounding-boundary case the reported distances differ by 0.01
+    r = diff_report("read(write(read)) differs", ps::dump(st2, full), ps::dump(st3, full));
     if (!r.empty()) return r + " text=" + hx(t1);
     // padding / line ends
     r = padding_oracle(t1, ro, false);
@@ -328,6 +346,37 @@ static std::string handle(const std::string& cmd, const std::string& args) {
       if (!r.empty()) return r;
     }
     return "ok";
+  }
+  if (cmd == "o_cutall") {     // seed nmodels nchains nres: every line of a written file cut at every length must be read without a memory error
+    ps::GenOpt g;
+    g.nmodels = (int)to_ll(w.at(1)); g.nchains = (int)to_ll(w.at(2)); g.nres = (int)to_ll(w.at(3));
+    Structure st = ps::gen_structure((uint64_t)to_ll(w.at(0)), g);
+    PdbWriteOptions wo;
+    wo.conect_records = true;
+    std::string text = make_pdb_string(st, wo);
+    text = "SSBOND   1 CYS A    6    CYS A  127                          1555   1555  2.03  \n"
+           "CISPEP   1 SER A   58    GLY A   59          0        20.91                     \n"
+           "REMARK 200  TEMPERATURE           (KELVIN) : 100.1                              \n"
+           "REMARK 200  PH                             : 7.                                 \n"
+           "REMARK 350   BIOMT1   1  1.000000  0.000000  0.000000        0.00000            \n" + text;
+    std::vector<std::string> lines = hv::split(text, '\n');
+    std::string prev_kind;
+    int parsed = 0;
+    for (size_t i = 0; i < lines.size(); ++i) {
+      // one representative line per record kind keeps this fast
+      std::string kind = lines[i].substr(0, std::min<size_t>(lines[i].size(), 10));
+      if (lines[i].compare(0, 6, "REMARK") != 0) kind = lines[i].substr(0, std::min<size_t>(lines[i].size(), 6));
+      if (kind == prev_kind) continue;
+      prev_kind = kind;
+      for (size_t cut = 0; cut < lines[i].size(); ++cut) {
+        std::string t;
+        for (size_t j = 0; j < lines.size(); ++j)
+          t += (j == i ? lines[j].substr(0, cut) : lines[j]) + "\n";
+        try { rd(t); } catch (std::exception&) {}
+        ++parsed;
+      }
+    }
+    return parsed > 0 ? "ok" : "skip";
   }
   if (cmd == "gen") {          // seed nmodels nchains nres wmask -> hex(text) (for the Python side: sequences, replay)
     ps::GenOpt g;
